@@ -79,6 +79,7 @@ func (in *Interp) initAll() {
 	in.phases = nil
 	in.phase = 0
 	in.syncUses = nil
+	in.pools = nil
 	in.nondetUses = nil
 	in.MapOrder = in.cfg.MapOrder
 }
